@@ -17,8 +17,11 @@ SRC = os.path.join(REPO, "src")
 COQ = os.path.join(VERIF, "coq")
 BUILD = os.path.join(VERIF, "build")
 BIN = os.path.join(VERIF, "bin")
-EVID = os.path.join(VERIF, "evidence")
-REPLAYS = os.path.join(VERIF, "replays")
+# runs against a scratch copy of the repository (VERIF_REPO, used to try seeded changes) must not
+# overwrite the evidence / replays of the real tree
+_SCRATCH = os.path.realpath(REPO) != "/repo"
+EVID = os.path.join(BUILD, "scratch_evidence") if _SCRATCH else os.path.join(VERIF, "evidence")
+REPLAYS = os.path.join(BUILD, "scratch_replays") if _SCRATCH else os.path.join(VERIF, "replays")
 JOBS = str(os.cpu_count() or 4)
 IMPL_PY = "/venv/bin/python"
 
